@@ -109,6 +109,22 @@ func runC20(c *Ctx) {
 		return nil, false
 	}, "os.Remove")
 	c.Check(!r && !r2, "R1", "Uninstall:foreign-hook-kept", p.Pos(unin.Pos()), "a hook that is not ours is not removed", "Uninstall removes a hook whose content is not one Git LFS generated")
+	// the existence test that routes an existing hook to the recognition test: it may answer "absent" only
+	// when stat-ing the hook's own path reports not-exist (a symlink, an unreadable file, a directory are present)
+	if ex := p.Fn("lfs", "(*Hook).Exists"); ex != nil {
+		nret := 0
+		for _, r := range ReturnsOf(ex) {
+			for _, v := range ReturnValues(r, 0) {
+				nret++
+				ok, why := c20ExistsVerdict(p, v)
+				c.Check(ok, "R1", fmt.Sprintf("Exists:absent-only-if-stat-says-so#%d", nret), p.InstrPos(r), "`absent` is answered only for a not-exist error of stat on the hook's path",
+					"Hook.Exists can answer false for a hook that is present ("+why+"): Install then skips the recognition test and writes over the user's hook without --force")
+			}
+		}
+		c.AtLeast("R1", "return values of Hook.Exists", nret, 1)
+	} else {
+		c.Missing("R1", "(*lfs.Hook).Exists", "not found")
+	}
 	// the error of matchesCurrent is propagated (conflict reported)
 	if mcCall != nil {
 		errPropagates(c, "R1", "Upgrade:conflict-reported", upg, mcCall, 2)
@@ -286,6 +302,35 @@ func c20Attributes(c *Ctx) {
 		c.Missing("R4", "(*lfs.Attribute).set", "not found")
 		return
 	}
+	// the lookups that inspect the current value follow include directives: a value that lives in an included
+	// file is a user value all the same
+	if gc := p.Fn("git", "(*Configuration).gitConfig"); gc != nil {
+		n := 0
+		for _, ci := range CallsIn(gc, "subprocess.ExecCommand") {
+			n++
+			consts := map[string]bool{}
+			for _, a := range ci.Common().Args[1:] {
+				for _, l := range p.LeavesNoFields(a, nil) {
+					if s, ok := ConstString(l); ok {
+						consts[s] = true
+					}
+				}
+			}
+			c.Check(consts["config"] && consts["--includes"], "R4", "lookup-follows-includes", p.InstrPos(ci), "every `git config` lookup is run with --includes",
+				"`git config` is run without --includes: with a scope or file option Git then ignores include directives, so a user's filter.lfs.* value in an included file is not seen and a shadowing value is written without --force")
+		}
+		c.AtLeast("R4", "git config spawn in gitConfig", n, 1)
+		for _, sc := range []string{"Local", "Worktree", "System", "File", "Global"} {
+			f := p.Fn("git", "(*Configuration).Find"+sc)
+			if f == nil {
+				c.Missing("R4", "(*git.Configuration).Find"+sc, "not found")
+				continue
+			}
+			c.Check(len(CallsIn(f, "(*git.Configuration).gitConfig")) == 1 && len(CallsIn(f, "subprocess.ExecCommand")) == 0, "R4", "lookup-through-gitConfig:Find"+sc, p.Pos(f.Pos()), "scope lookup goes through gitConfig", "Find"+sc+" does not run through gitConfig (whose --includes flag is what makes included values visible)")
+		}
+	} else {
+		c.Missing("R4", "(*git.Configuration).gitConfig", "not found")
+	}
 	scopes := []string{"Local", "Worktree", "System", "File", "Global"}
 	scopeAssume := func(active string, force, reset bool) func(v ssa.Value) (*ssa.Const, bool) {
 		return func(v ssa.Value) (*ssa.Const, bool) {
@@ -417,4 +462,48 @@ var c20Canaries = []Canary{
 	{Name: "no-conflict-error", ExpectKey: "C20.R4#set:differing-value-is-reported", Edits: []Edit{{File: "lfs/attribute.go", Find: "	} else if currentValue != value {\n		return errors.New(", Repl: "	} else if currentValue != value && opt.Local {\n		return errors.New("}}},
 	{Name: "track-forces-hooks", ExpectKey: "C20.R5#installHooks:commands.trackCommand", Edits: []Edit{{File: "commands/command_track.go", Find: "		installHooks(false)", Repl: "		installHooks(true)"}}},
 	{Name: "reset-any-lfs-value", ExpectKey: "C20.R4#shouldReset", Edits: []Edit{{File: "lfs/attribute.go", Find: "	if len(value) == 0 {\n		return true\n	}\n\n	for _, u := range upgradeables {", Repl: "	if len(value) == 0 || strings.HasPrefix(value, \"git-lfs \") {\n		return true\n	}\n\n	for _, u := range upgradeables {"}}},
+}
+
+// c20ExistsVerdict accepts `true` and `!os.IsNotExist(err)` where err is the error of os.Stat/os.Lstat on
+// the hook's own path; anything else can deny the existence of a present file.
+func c20ExistsVerdict(p *Prog, v ssa.Value) (bool, string) {
+	if bv, ok := ConstBool(v); ok {
+		if bv {
+			return true, ""
+		}
+		return false, "constant false"
+	}
+	if ph, ok := v.(*ssa.Phi); ok {
+		for _, e := range ph.Edges {
+			if ok, why := c20ExistsVerdict(p, e); !ok {
+				return false, why
+			}
+		}
+		return true, ""
+	}
+	un, ok := v.(*ssa.UnOp)
+	if !ok || un.Op != token.NOT {
+		return false, "the answer is " + describeValue(p, v) + ", not the negated not-exist test"
+	}
+	call, ok := un.X.(*ssa.Call)
+	if !ok || (CalleeName(&call.Call) != "os.IsNotExist" && CalleeName(&call.Call) != "errors.Is") {
+		return false, "the answer negates " + describeValue(p, un.X) + ", not os.IsNotExist"
+	}
+	if CalleeName(&call.Call) == "errors.Is" {
+		if g, ok := Unwrap(call.Call.Args[1]).(*ssa.UnOp); !ok || !strings.Contains(g.X.Name(), "ErrNotExist") {
+			return false, "errors.Is against something other than ErrNotExist"
+		}
+	}
+	sc, idx, ok := CallResult(call.Call.Args[0])
+	if !ok || idx != 1 {
+		return false, "the error tested is not a stat result"
+	}
+	n := CalleeName(sc.Common())
+	if n != "os.Stat" && n != "os.Lstat" {
+		return false, "the error tested comes from " + n
+	}
+	if pc, _, ok := CallResult(sc.Common().Args[0]); !ok || CalleeName(pc.Common()) != "(*lfs.Hook).Path" {
+		return false, "the path examined is not the hook's own path"
+	}
+	return true, ""
 }
